@@ -271,6 +271,62 @@ def _small_scope(ob, fs, timeout_ms):
     return False
 
 
+# ---------------------------------------------------------------------------------------------
+# core hints: for obligations that were slow or unstable the set of hypotheses that z3 actually used (an unsat core found once,
+# tools/gen_cores.py) is stored by hash under pyvc_cores/<PID>.json.  A hint is only a *selection among the current hypotheses*:
+# every hash must match a hypothesis generated from the current source, and the solver must answer unsat for that subset.  Proving
+# from fewer hypotheses is sound, so a hint can make a proof faster and independent of solver scheduling, never wrong; if the
+# source changed (hashes differ) or the subset does not suffice the normal route below runs.
+# ---------------------------------------------------------------------------------------------
+CORE_HINTS = {}
+
+
+def _hash(e):
+    import hashlib
+    return hashlib.md5(e.sexpr().encode()).hexdigest()[:16]
+
+
+def core_key(ob):
+    return f"{ob.name}|{ob.meta.get('variant')}|{_hash(ob.goal)}"
+
+
+def _try_core_hint(ob, timeout_ms):
+    hints = CORE_HINTS.get(core_key(ob))
+    if not hints:
+        return False
+    by_hash = {}
+    for h in ob.hyps:
+        by_hash.setdefault(_hash(h), h)
+    for hint in hints:
+        if not all(x in by_hash for x in hint):
+            continue
+        s = z3.Solver()
+        s.set("timeout", min(timeout_ms, 10000))
+        s.add(*[by_hash[x] for x in hint])
+        s.add(z3.Not(ob.goal))
+        if s.check() == z3.unsat:
+            ob.result = "proved"
+            ob.backend = "z3-" + z3.get_version_string() + f"+core-hint({len(hint)} of {len(ob.hyps)} hypotheses)"
+            return True
+    return False
+
+
+def find_core(ob, timeout_ms=120000):
+    """hashes of an unsat core of hyps |- goal (None if not found)"""
+    for seed in (0, 1, 2, 3):
+        s = z3.Solver()
+        s.set("timeout", timeout_ms)
+        s.set("random_seed", seed)
+        s.set(unsat_core=True)
+        for i, h in enumerate(ob.hyps):
+            s.assert_and_track(h, z3.Bool(f"core_track_{i}"))
+        s.add(z3.Not(ob.goal))
+        if s.check() == z3.unsat:
+            idx = sorted(int(str(x).rsplit("_", 1)[1]) for x in s.unsat_core())
+            return [_hash(ob.hyps[i]) for i in idx]
+    return None
+
+
 def discharge(ob: Obligation, timeout_ms=None, try_cvc5=True):
     """prove hyps |- goal.  result in {'proved','refuted','unknown'}"""
     timeout_ms = timeout_ms or Z3_TIMEOUT_MS
@@ -278,6 +334,9 @@ def discharge(ob: Obligation, timeout_ms=None, try_cvc5=True):
         timeout_ms = min(timeout_ms, 3000)
         try_cvc5 = False
     t0 = time.time()
+    if ob.kind != "mustfail" and CORE_HINTS and not _uses_strings(list(ob.hyps) + [ob.goal]) and _try_core_hint(ob, timeout_ms):
+        ob.seconds = time.time() - t0
+        return ob.result
     fs = list(ob.hyps) + [z3.Not(ob.goal)]
     if _uses_strings(fs):
         fs = lib_py.string_axioms(fs) + fs
